@@ -315,7 +315,8 @@ func (e *executor) execPhase(op hcOp, r *stepResult) {
 		e.failedPending = true
 		e.taintPending()
 	} else {
-		e.failedPending, e.eventPending = false, false
+		e.delivered()
+		e.eventPending = false
 	}
 	// ---- the cache holds exactly what the runtime has
 	cch := e.h.m.cache
